@@ -232,6 +232,12 @@ def check(prog, rep):
                 why = 'on a 2 x 3 raster: %s' % (val,)
             except _NoModel as e:
                 ok, why = None, 'no model for %s' % e
+                from ..wterm import walk as twalk
+                glob = [x[1] for x in twalk(got) if isinstance(x, tuple) and len(x) == 2 and x[0] == 'global' and
+                        not x[1].startswith(('np.', 'numpy.', 'da.', 'dask.'))]
+                if glob:
+                    ok, why = False, 'the grid is taken from module-level state (%s): it must be built from this raster\'s own ' \
+                        'coordinates on every call' % sorted(set(glob))[0]
             rep.add('P7-grid', impl, entry, 'grid %s = %s' % (g, tshow(got, 110)), impl.node.lineno, ok,
                     'x grid = the x coordinates tiled over the rows, y grid = the y coordinates repeated along the columns; ' + why)
     rep.floor('P7a', 2)
